@@ -1,5 +1,6 @@
 import Cirbo.Proofs.Func
 import Cirbo.Proofs.FuncSym
+import Cirbo.Proofs.FuncIdx
 /-!
 # C12 — All function representations answer every protocol query alike and correctly
 
@@ -19,7 +20,9 @@ lookup at the canonical index) and `PyFunction` (ev = the callable).  The querie
 -- OBLIGATION: c12_is_symmetric_at
 -- OBLIGATION: c12_find_negations_to_make_symmetric
 -- OBLIGATION: c12_pyfunction_is_monotone
--- PARTIAL: not yet proved (modelled and compared with the code exhaustively for n<=2,m<=2 and sampled beyond): TruthTable's index-based is_output_equal_to_input against the generic one, get_truth_table ordering, define() and the integer wrappers' bit order. find_negations_to_make_symmetric: that the returned vector is the first in enumeration order is by correspondence (the theorem says it works, and that None means none works).
+-- OBLIGATION: c12_truth_table_order
+-- OBLIGATION: c12_truth_table_equal_to_input
+-- PARTIAL: not yet proved (modelled and compared with the code exhaustively for n<=2,m<=2 and sampled beyond): define() and the integer wrappers' bit order (`bin()` digit strings). find_negations_to_make_symmetric: that the returned vector is the first in enumeration order is by correspondence (the theorem says it works, and that None means none works).
 -/
 namespace Cirbo
 open FRep
@@ -94,6 +97,21 @@ theorem c12_pyfunction_is_monotone (F : FRep) (inv : Bool) (hlen : ∀ x, (F.ev 
   ⟨isMonotoneP_iff F inv hlen, isMonotoneP_eq_T F inv hlen,
    (isMonotoneP_eq_T F inv hlen).trans (isMonotone_agree F inv).symm⟩
 
+/-- `get_truth_table` ordering: the enumeration of all inputs is binary counting, so column `k` of
+output `o` is the value at the input vector whose bits are the binary digits of `k`, first input most
+significant; every vector has such an index -/
+theorem c12_truth_table_order (F : FRep) (o k : Nat) (hk : k < 2 ^ F.n) :
+    (F.row o)[k]? = some (F.evAt (bitsBE F.n k) o) ∧ (F.row o).length = 2 ^ F.n ∧
+    ∀ x : List Bool, x.length = F.n → ∃ j, j < 2 ^ F.n ∧ bitsBE F.n j = x :=
+  ⟨row_get F o k hk, row_length F o, fun x hx => exists_index F.n x hx⟩
+
+/-- `TruthTable.is_output_equal_to_input(_negation)` — index arithmetic on the stored row — is the generic
+definition and agrees with the Circuit / PyFunction implementation -/
+theorem c12_truth_table_equal_to_input (F : FRep) (o i : Nat) (hi : i < F.n) (negate : Bool) :
+    (F.equalInputT o i negate = true ↔ ∀ x, x.length = F.n → F.evAt x o = xor negate (x.getD i false)) ∧
+    F.equalInputT o i false = F.equalInput o i ∧ F.equalInputT o i true = F.equalInputNeg o i :=
+  ⟨equalInputT_iff F o i hi negate, (equalInputT_agrees F o i hi).1, (equalInputT_agrees F o i hi).2⟩
+
 /-! Non-vacuity: a concrete function (x0 AND NOT x1, and x1) through the table representation -/
 def exF : FRep := FRep.ofTable 2 [[false, false, true, false], [false, true, false, true]]
 example : exF.isConstant = false ∧ exF.equalInput 1 1 = true ∧ exF.isDependent 0 1 = true ∧
@@ -112,5 +130,7 @@ example : exF.isConstant = false ∧ exF.equalInput 1 1 = true ∧ exF.isDepende
 #print axioms c12_is_symmetric_at
 #print axioms c12_find_negations_to_make_symmetric
 #print axioms c12_pyfunction_is_monotone
+#print axioms c12_truth_table_order
+#print axioms c12_truth_table_equal_to_input
 
 end Cirbo
